@@ -112,3 +112,21 @@ Example ex_idem :
   /\ subset_model ex_font' [] [66] 0 =
        Out 4 (Some [GE; GS 11; GC [1; 3] 12; GS 14]) (Some (3, [(500, 1); (600, 2); (700, 3); (700, 5)])) [(66, 2)].
 Proof. repeat split; try reflexivity. intros cs h; vm_compute; discriminate. Qed.
+
+(* HVAR index-map repacking: two ItemVariationData subtables; the kept glyphs use rows 0,1,2 of subtable 0 and
+   one row of subtable 1 (the shape on which "bit count of the LAST subtable" is wrong): inner bit count 2,
+   entry format 0x01, entries (0,0) (0,1) (1,0) (0,2) packed as 0 1 4 2, and every entry reads back *)
+Definition ex_mvar : mvar :=
+  mkMvar 2 [Some (6, [(0, 0); (0, 5); (1, 3); (0, 9); (0, 7); (1, 1)]); None; None].
+Example ex_indexmap :
+  mvar_subset ex_mvar false [0; 1; 2; 4] = Some [Some (1, 4, [0; 1; 4; 2]); None; None]
+  /\ map (im_unpack 2) [0; 1; 4; 2] = [(0, 0); (0, 1); (1, 0); (0, 2)].
+Proof. split; reflexivity. Qed.
+Example ex_indexmap2 :
+  (* glyphs 0,1,3,4 -> rows {0,5,9,7} of subtable 0 only ... plus glyph 5 -> one row of subtable 1 *)
+  mvar_subset ex_mvar false [0; 1; 3; 4; 5] = Some [Some (1, 5, [0; 1; 3; 2; 4]); None; None]
+  /\ map (im_unpack 2) [0; 1; 3; 2; 4] = [(0, 0); (0, 1); (0, 3); (0, 2); (1, 0)].
+Proof. split; reflexivity. Qed.
+(* with too few inner bits the entry (0,2) is read back as (1,0): the hypothesis of the round trip is needed *)
+Example indexmap_too_narrow_refuted : im_unpack 1 (im_pack 1 0 2) = (1, 0).
+Proof. reflexivity. Qed.
